@@ -204,7 +204,7 @@ class kMinPathError(pathmodel.AbstractPathModelDAG):
         self.G = stdag.stDAG(self.G_internal, additional_starts=additional_starts_internal, additional_ends=additional_ends_internal)
         self.subpath_constraints = subpath_constraints_internal
         self.edges_to_ignore = self.G.source_sink_edges.union(edges_to_ignore_internal)
-        self.edge_error_scaling = error_scaling_internal
+        self.edge_error_scaling = dict(error_scaling_internal)      # (a copy: the factors are read again after solve(); later edits of the caller's dict must not reach the model)
         # If the error scaling factor is 0, we ignore the edge
         self.edges_to_ignore |= {edge for edge, factor in self.edge_error_scaling.items() if factor == 0}
 
@@ -230,7 +230,7 @@ class kMinPathError(pathmodel.AbstractPathModelDAG):
         if self.k is None:
             self.k = self.G.get_width(list(self.edges_to_ignore))
         self.original_k = self.k
-        self.solution_weights_superset = solution_weights_superset
+        self.solution_weights_superset = list(solution_weights_superset) if solution_weights_superset is not None else None      # (a copy, read again in get_solution())
         # Work on a copy: the model adds its own entries, and the caller's dict must not be modified
         self.optimization_options = dict(optimization_options) if optimization_options else {}        
 
